@@ -389,6 +389,8 @@ class Check:
         replay.setdefault("property", self.pid)
         replay.setdefault("seed", self.seed)
         replay.setdefault("tier", self.tier)
+        if getattr(self, "layer", None):
+            replay.setdefault("layer", self.layer)          # which second layer (run_extra) produced the record
         open(path, "w").write(json.dumps(replay, sort_keys=True, indent=1))
         self.violations.append((path, nofail))
         print("VIOLATION property=%s replay=%s%s" % (self.pid, path, " no-failing-input-found" if nofail else ""),
